@@ -16,6 +16,9 @@ of `Props/C01Pre.lean` restated WITHOUT the hypothesis "the model returned `.ok`
 * `C01_preprocessF_error_not_wf`  any error refutes well-formedness: dangling reference or no acyclicity witness.
 * `C01_outline_pre_total`, `C01_outline_pre_holds_total`, `C01_pre_irrelevant_total`, `C01_outline_pre_skip_total`
   (+ `_cert` variants from the decidable certificate alone).
+* `C01_outline_pre_skip_total_iff` / `_total_spec`, `C01_outline_pre_holds_total_spec`: the last `= .ok` hypothesis (the
+  charstring pen accepting the contour shapes) is moved from the model's output to the SPECIFIED outline: the model's outline is
+  rejected exactly when the specified one is.
 -/
 namespace Ufo2ft
 open List
@@ -610,6 +613,166 @@ example (tol : Q) : ∃ pre, preprocessF (some (.excl ["other"])) ["mir"] tGs = 
       holdsOutline false tol tGs g ops = true := by
   obtain ⟨pre, h, hn, hall⟩ := C01_outline_pre_skip_total_cert tol (.excl ["other"]) ["mir"] rfl tGs tGs_cert
   exact ⟨pre, h, by rw [hn]; decide, hall⟩
+
+/-! ### 4. the remaining hypothesis `cffOutline … = .ok ops`, moved from the MODEL to the SPECIFICATION
+
+`cffOutline` can fail although the pre-processing succeeded: the charstring pen rejects some contour shapes (`toSegments`).
+With a skip list the compiled contours are a permutation of the specified ones, so the model's outline is rejected exactly
+when the specified outline is: the `= .ok` hypothesis of `C01_outline_pre_skip` is a condition on the input, not on the model. -/
+
+/-- the contours of a remaining glyph after `preprocessF` with a non-empty skip list: a permutation of the specified ones -/
+theorem C01_pre_skip_contours (s : Sel) (skip : List String) (hne : skip.isEmpty = false) (gs pre : GlyphSet)
+    (rank : String → Nat) (hg : Good gs rank) (hn : Named gs) (h : preprocessF (some s) skip gs = .ok pre)
+    (n : String) (g : Glyph) (hs : skip.contains n = false) (hget : gs.get? n = some g) (hb : rank n ≤ gs.length) :
+    ∃ g', pre.get? n = some g' ∧ g'.comps = [] ∧ (g'.contours).Perm (renderGlyph gs g) := by
+  unfold preprocessF at h
+  rw [hne] at h
+  simp only [Bool.false_eq_true, if_false] at h
+  cases h1 : skipExport skip (fun _ => true) gs with
+  | error e => rw [h1] at h; cases h
+  | ok st1 =>
+    rw [h1] at h
+    dsimp only at h
+    cases hP : runFilter decomposeStep s.pred st1.gs with
+    | error e => rw [hP] at h; cases h
+    | ok stP =>
+    rw [hP] at h
+    dsimp only at h
+    cases h2 : runFilter decomposeStep (fun _ => true) stP.gs with
+    | error e => rw [h2] at h; cases h
+    | ok st2 =>
+      rw [h2] at h
+      have := Except.ok.inj h; subst this
+      obtain ⟨_, hrender⟩ := C13.C13_render skip gs st1 rank hg hn h1
+      obtain ⟨g1, hg1, _, _, _, _, hperm⟩ := hrender n g hs hget
+      have hgood1 : Good st1.gs rank ∧ Named st1.gs := by
+        unfold skipExport at h1
+        cases hr : runFilter (skipExportStep skip) (fun _ => true) gs with
+        | error e => rw [hr] at h1; cases h1
+        | ok st0 =>
+          rw [hr] at h1
+          have := Except.ok.inj h1; subst this
+          have hs0 := runFilter_sameRender (skipExportStep skip) rank
+            (stepOK_of_isDecomp rank _ (skipExportStep_isDecomp skip)) (fun _ => true) gs st0 hr hg hn
+          exact good_filter skip st0.gs rank hs0.1 hs0.2.1
+      obtain ⟨hgP, hnP, hsP⟩ := runFilter_partial rank s.pred st1.gs stP hP hgood1.1 hgood1.2
+      obtain ⟨hsomeP, heqP⟩ := hsP n
+      cases hpP : stP.gs.get? n with
+      | none => rw [hpP, hg1] at hsomeP; cases hsomeP
+      | some gP =>
+      unfold runFilter at h2
+      cases ho : orderedGlyphs stP.gs with
+      | error e => rw [ho] at h2; cases h2
+      | ok order =>
+        rw [ho] at h2
+        obtain ⟨_, _, hsame, _, hflat, _⟩ := fullLoop rank order ⟨stP.gs, [], []⟩ st2 h2 hgP hnP
+          (fun x hx => (by cases hx))
+        obtain ⟨hsome, heq⟩ := hsame n
+        have hmem := orderedGlyphs_mem stP.gs order ho n gP hpP
+        cases hp : st2.gs.get? n with
+        | none => rw [hp, hpP] at hsome; cases hsome
+        | some g' =>
+          have hc : g'.comps = [] := hflat n hmem g' hp
+          have hid : Affine.id.det ≠ 0 := by simp only [Affine.id, Affine.det]; grind
+          have e := heq g' gP hp hpP Affine.id (gs.length + 2) hid (by omega)
+          have eP := heqP gP g1 hpP hg1 Affine.id (gs.length + 2) hid (by omega)
+          have p := hperm Affine.id (gs.length + 2) hid (by omega)
+          have hcont : g'.contours = render (gs.length + 2) st2.gs Affine.id g' := by
+            rw [render_succ, hc, drawContours_id]; simp
+          exact ⟨g', rfl, hc, by rw [hcont, e, eP]; exact p⟩
+
+/-- **`C01_outline_pre_skip_total_iff`**: skip list AND restricted pre-filter, on every well-formed closed glyph set: the
+    pre-processed set exists; every remaining glyph is in it, flat, with a permutation of the specified contours; the
+    charstring pen accepts its outline EXACTLY WHEN it accepts the specified outline; and then `holdsOutline` holds.
+    No hypothesis about any output of the model is left. -/
+theorem C01_outline_pre_skip_total_iff (tol : Q) (s : Sel) (skip : List String) (hne : skip.isEmpty = false) (gs : GlyphSet)
+    (rank : String → Nat) (hg : Good gs rank) (hn : Named gs) (hnd : gs.names.Nodup) (hc : Closed gs) :
+    ∃ pre, preprocessF (some s) skip gs = .ok pre ∧
+      ∀ n g, skip.contains n = false → gs.get? n = some g →
+        (∃ g', pre.get? n = some g' ∧ g'.comps = [] ∧ (g'.contours).Perm (renderGlyph gs g)) ∧
+        ((∃ ops, cffOutline tol pre n = .ok ops) ↔ ∃ sops, specOutline tol gs g = .ok sops) ∧
+        ∀ ops, cffOutline tol pre n = .ok ops → holdsOutline false tol gs g ops = true := by
+  obtain ⟨pre, h, _, _, hall⟩ := C01_outline_pre_skip_total tol s skip hne gs rank hg hn hnd hc
+  refine ⟨pre, h, ?_⟩
+  intro n g hs hget
+  obtain ⟨g', hp, hc', hperm⟩ := C01_pre_skip_contours s skip hne gs pre (normRank gs rank) (good_normRank gs rank hg) hn h
+    n g hs hget (normRank_le gs rank n)
+  refine ⟨⟨g', hp, hc', hperm⟩, ?_, hall n g hs hget⟩
+  have hcff : cffOutline tol pre n = contoursOps tol g'.contours := by unfold cffOutline; rw [hp]
+  rw [hcff]
+  unfold specOutline
+  rw [contoursOps_ok_iff, contoursOps_ok_iff]
+  exact ⟨fun h c hc => h c (hperm.mem_iff.mpr hc), fun h c hc => h c (hperm.mem_iff.mp hc)⟩
+
+/-- the same from the specification side: whenever the SPECIFIED outline of a remaining glyph is drawable, the model's
+    outline exists and `holdsOutline` holds of it -/
+theorem C01_outline_pre_skip_total_spec (tol : Q) (s : Sel) (skip : List String) (hne : skip.isEmpty = false) (gs : GlyphSet)
+    (rank : String → Nat) (hg : Good gs rank) (hn : Named gs) (hnd : gs.names.Nodup) (hc : Closed gs) :
+    ∃ pre, preprocessF (some s) skip gs = .ok pre ∧
+      ∀ n g sops, skip.contains n = false → gs.get? n = some g → specOutline tol gs g = .ok sops →
+        ∃ ops, cffOutline tol pre n = .ok ops ∧ holdsOutline false tol gs g ops = true := by
+  obtain ⟨pre, h, hall⟩ := C01_outline_pre_skip_total_iff tol s skip hne gs rank hg hn hnd hc
+  refine ⟨pre, h, ?_⟩
+  intro n g sops hs hget hspec
+  obtain ⟨_, hiff, hh⟩ := hall n g hs hget
+  obtain ⟨ops, hops⟩ := hiff.mpr ⟨sops, hspec⟩
+  exact ⟨ops, hops, hh ops hops⟩
+
+/-- exact variant (no skip list): whenever the specified outline is drawable, the model's outline IS it and `holdsOutline`
+    (ordered) holds -/
+theorem C01_outline_pre_holds_total_spec (tol : Q) (s : Sel) (gs : GlyphSet) (rank : String → Nat)
+    (hg : Good gs rank) (hn : Named gs) (hnd : gs.names.Nodup) (hc : Closed gs) :
+    ∃ pre, preprocessF (some s) [] gs = .ok pre ∧
+      ∀ n g sops, gs.get? n = some g → specOutline tol gs g = .ok sops →
+        cffOutline tol pre n = .ok sops ∧ holdsOutline true tol gs g sops = true := by
+  obtain ⟨pre, h, _, _, hall⟩ := C01_outline_pre_total tol s gs rank hg hn hnd hc
+  obtain ⟨pre', h', hh⟩ := C01_outline_pre_holds_total tol s gs rank hg hn hnd hc
+  rw [h] at h'
+  have e := Except.ok.inj h'
+  subst e
+  refine ⟨pre, h, ?_⟩
+  intro n g sops hget hspec
+  have hc1 : cffOutline tol pre n = .ok sops := by rw [hall n g hget]; exact hspec
+  exact ⟨hc1, hh n g hget sops hc1⟩
+
+/-! non-vacuity: on `TotalEx.tGs` with skip list `["mir"]` and `exclude=["other"]` the specified outline of `base` (a triangle)
+IS drawable - the pen's verdict is evaluated by the kernel -, so the model's outline of `base` exists and satisfies the predicate -/
+
+theorem tri_ok : (toSegments TotalEx.tri).isOk = true := by decide +kernel
+
+open TotalEx in
+theorem tBase_spec (tol : Q) : ∃ sops, specOutline tol tGs tBase = .ok sops := by
+  unfold specOutline
+  rw [contoursOps_ok_iff]
+  have hr : renderGlyph tGs tBase = [tri] := by
+    unfold renderGlyph
+    rw [render_succ, drawContours_id]
+    simp [tBase]
+  rw [hr]
+  intro c hc
+  simp only [mem_singleton] at hc
+  subst hc
+  cases h : toSegments tri with
+  | ok ops => exact ⟨ops, rfl⟩
+  | error e => have := tri_ok; rw [h] at this; cases this
+
+open TotalEx in
+example (tol : Q) : ∃ pre ops, preprocessF (some (.excl ["other"])) ["mir"] tGs = .ok pre ∧
+    cffOutline tol pre "base" = .ok ops ∧ holdsOutline false tol tGs tBase ops = true := by
+  obtain ⟨pre, h, hall⟩ := C01_outline_pre_skip_total_spec tol (.excl ["other"]) ["mir"] rfl tGs tRank tGs_good
+    tGs_wf.named tGs_wf.nodup tGs_wf.closed
+  obtain ⟨sops, hspec⟩ := tBase_spec tol
+  obtain ⟨ops, h1, h2⟩ := hall "base" tBase sops (by decide) rfl hspec
+  exact ⟨pre, ops, h, h1, h2⟩
+
+open TotalEx in
+example (tol : Q) : ∃ pre sops, preprocessF (some (.incl ["mid"])) [] tGs = .ok pre ∧
+    cffOutline tol pre "base" = .ok sops ∧ holdsOutline true tol tGs tBase sops = true := by
+  obtain ⟨pre, h, hall⟩ := C01_outline_pre_holds_total_spec tol (.incl ["mid"]) tGs tRank tGs_good
+    tGs_wf.named tGs_wf.nodup tGs_wf.closed
+  obtain ⟨sops, hspec⟩ := tBase_spec tol
+  obtain ⟨h1, h2⟩ := hall "base" tBase sops rfl hspec
+  exact ⟨pre, sops, h, h1, h2⟩
 
 /-! ### non-vacuity of the error characterisation -/
 
